@@ -185,13 +185,13 @@ pub fn run_c11(env: &Env) -> i32 {
     }
     for cat in CATEGORIES {
         let name = format!("c11-{cat}");
-        value_stream(env, &mut st, &name, env.tier.n(20_000, 300_000), || findings::findings(cat, 0), |f: &Findings, s| {
+        value_stream(env, &mut st, &name, env.tier.n(40_000, 600_000), || findings::findings(cat, 0), |f: &Findings, s| {
             s.count(&format!("maps_{cat}"));
             s.sample(1, || json!({"category": cat, "findings": findings::to_json(f)}));
             check_c11(&name, cat, f, s)
         });
     }
-    crate::props::e2e::report_roundtrip(env, &mut st, env.tier.n(60, 1000));
+    crate::props::e2e::report_roundtrip(env, &mut st, env.tier.n(150, 3000));
     let meta = Meta {
         rule: "cases = findings maps per category (any subset and insertion order of patterns, 1-4 files per pattern with names biased to ':', leading '- ' / '#', '### Lines', duplicates, long and non-ASCII names, 1-4 lines in 0..=i32::MAX); oracle = round trip through an independent report parser; non-trivial = >= 3 patterns, or >= 2 files under one pattern, or a markdown-like / ':' / duplicated file name; plus end-to-end runs of the binary on generated trees".into(),
         assumptions: vec![
@@ -228,13 +228,13 @@ pub fn run_c12(env: &Env) -> i32 {
             per.prop_shuffle()
         };
         let name = format!("c12-vuln-subset-{mask}");
-        value_stream(env, &mut st, &name, env.tier.n(160, 4000), mk, |f: &Findings, s| {
+        value_stream(env, &mut st, &name, env.tier.n(600, 20_000), mk, |f: &Findings, s| {
             s.sample(1, || json!({"category": "vulnerabilities", "findings": findings::to_json(f)}));
             check_c12("c12-vuln", "vulnerabilities", f, s)
         });
     }
-    value_stream(env, &mut st, "c12-optimizations", env.tier.n(4000, 100_000), || findings::findings("optimizations", 0), |f: &Findings, s| check_c12("c12-opt", "optimizations", f, s));
-    crate::props::e2e::category_presence(env, &mut st, env.tier.n(80, 1500));
+    value_stream(env, &mut st, "c12-optimizations", env.tier.n(20_000, 400_000), || findings::findings("optimizations", 0), |f: &Findings, s| check_c12("c12-opt", "optimizations", f, s));
+    crate::props::e2e::category_presence(env, &mut st, env.tier.n(200, 4000));
     let subsets = st.sets.get("vulnerability_subsets").map(|s| s.len()).unwrap_or(0) as u64;
     let meta = Meta {
         rule: "cases = findings maps; all 16 subsets of the four vulnerability patterns (exhaustive) x random file/line multiplicities, random optimisation maps, and binary runs on trees for category presence; oracle = independent report parser: printed total = listed entries, severity heading present iff a finding of that severity exists, each vulnerability under its own severity; non-trivial = subset lacking a severity, or >= 2 files x >= 2 lines".into(),
